@@ -225,10 +225,18 @@ def finish(prop, tier, seed, results, t0, level_text, extra_assumptions, trusted
            time.time() - t0))
     if violations:
         return 1
-    if errors or undecided or (n_obl == 0 and category == "proof") or (n_obl + n_bounded == 0):
+    # a Kani harness that CBMC could not decide within its time / memory budget was not explored: it is reported
+    # (here and in the evidence) but is neither an alarm nor a tool failure; every other undecided outcome (unwinding bound
+    # exceeded, counterexample that does not replay natively, vacuity guard) and every tool error is exit 2
+    resource_rx = re.compile(r'no result within', re.I)      # Kani/CBMC harness timeout or memory exhaustion only
+    resource_und = [o for o in undecided if o.engine == "kani-cbmc" and resource_rx.search(o.detail or "")]
+    other_und = [o for o in undecided if o not in resource_und]
+    for o in resource_und:
+        out("UNDECIDED (resource limit, not explored) property=%s obligation=%s: %s" % (prop, o.name, (o.detail or "")[:200].replace("\n", " ")))
+    if errors or other_und or (n_obl == 0 and category == "proof") or (n_obl + n_bounded == 0):
         for r in errors:
             log("TOOL-ERROR unit=%s: %s" % (r.name, (r.error or "")[:2000]))
-        for o in undecided:
+        for o in other_und:
             log("UNDECIDED obligation=%s: %s" % (o.name, o.detail[:500]))
         return 2
     return 0
